@@ -352,7 +352,20 @@ def r08_7(ctx, run, rule='R08.7'):
     if ok:
         run.proved(rule, b.path, 'existential', 'true on a satisfying pair, false when none', f'{b.file}:{b.line}')
     elif None in tf:
-        run.undecided(rule, b.path, 'existential', 'the result is not returned as the constants true / false (an iterator adaptor such as any()?): not decided', f'{b.file}:{b.line}')
+        # written with adaptors: "some pair" of two value lists is any-of-any (a Cartesian search); `zip` pairs the lists position by position
+        zipped = None
+        for p in ps:
+            for e in p.calls():
+                if canon(e[1]).split('::')[-1] == 'zip' and len(e[2]) == 2:
+                    ia, ib = param_provenance(b, e[2][0]), param_provenance(b, e[2][1])
+                    if (3 in ia and 4 in ib and 4 not in ia and 3 not in ib) or (4 in ia and 3 in ib and 3 not in ia and 4 not in ib):
+                        zipped = e
+        if zipped is not None:
+            t_ = zipped[5]
+            run.violation(rule, b.path, 'existential', 'the values of the left operand are zipped with the values of the right operand: only values at the same position are compared, '
+                          'while a comparison holds when *some pair* of operand values satisfies it (`$.a[*] == $.b[*]` on {"a":[1,2],"b":[2,3]})', f"{t_.get('file')}:{t_.get('line')}")
+        else:
+            run.undecided(rule, b.path, 'existential', 'the result is not returned as the constants true / false (an iterator adaptor such as any()?): not decided', f'{b.file}:{b.line}')
     else:
         run.violation(rule, b.path, 'existential', f'returns {tf}', f'{b.file}:{b.line}')
 
@@ -507,6 +520,8 @@ def check(ctx, run):
     # the items a path denotes do not depend on the result mode: the frontier walk must not consult it (R15.1)
     from rules import c15 as _c15
     _c15.mode_read(ctx, run, 'R08.13/R15.1')
+    from rules import units as _units
+    _units.check(ctx, run, 'R08.14/R05.15', only=lambda p_: p_.startswith('jsonpath::selector'))
     safety.forbidden_calls(ctx, run, 'R08.10', [SEL + 'select'], ('slice::sort', 'slice::sort_unstable', 'slice::sort_by', 'slice::sort_by_key', 'slice::sort_unstable_by', 'Vec::dedup',
                                                               'Vec::dedup_by', 'Vec::dedup_by_key', 'slice::reverse', 'Vec::retain', 'BTreeSet::insert', 'HashSet::insert'),
                            'the path evaluator', 'selected items must come out in the order the path lists them, repetitions included (`$[3, 0]`, `$[1, 1]`); reordering or de-duplicating positions changes the result',
